@@ -442,6 +442,16 @@ func init() {
 		for i := 0; i < nq; i++ {
 			e.bind(pick(r, qFifo, qPrio, qPersist, qPersistPrio, qDist))
 		}
+		// sometimes the adapters refuse a dequeue now and then: the dispatcher must come back to the
+		// same queue, and acknowledge on the adapter the job came from (the selection sequence is
+		// then not compared: a refused dequeue costs the queue its turn)
+		faults := len(e.adapters) > 0 && r.Intn(3) == 0
+		if faults {
+			e.p("failDeq", 3)
+			for _, a := range e.adapters {
+				a.failDeq = 3
+			}
+		}
 		e.lifecycle("PauseAndWait", 0)
 		lens := make([]int, nq)
 		for i := 0; i < nq; i++ {
@@ -522,7 +532,7 @@ func init() {
 		for _, x := range starts {
 			got = append(got, x.q)
 		}
-		if fmt.Sprint(got) != fmt.Sprint(want) && !vt.S.Hang {
+		if !faults && fmt.Sprint(got) != fmt.Sprint(want) && !vt.S.Hang {
 			e.notes = append(e.notes, fmt.Sprintf("SELECT: strategy %d, populations %v: queues served in order %v, the strategy prescribes %v", e.strat, lens, got, want))
 		}
 	})
